@@ -55,7 +55,7 @@ def r1_gate(ctx):
                 return False
             problems.append(t)
             return None
-        run = Run(f.node, oracle=oracle)
+        run = run_function(f, ctx.model, oracle=oracle)
         if problems or len(run.paths) != 1:
             raise AnalysisError('%s: test outside the gate abstraction: %s'
                                 % (construct, problems[:3]))
@@ -349,7 +349,7 @@ def r4_layout(ctx):
                 return ns is not None
             problems.append(t)
             return None
-        run = Run(f.node, oracle=oracle)
+        run = run_function(f, ctx.model, oracle=oracle)
         row = 'type=%s namespace=%s id=%s data=%s' % (
             binary or 'non-binary', ns, 'set' if has_id else None,
             'set' if has_data else None)
@@ -401,7 +401,7 @@ def r6_scanner(ctx):
     m = ctx.model
     f = m.own_method('Packet', 'decode')
     construct = 'Packet.decode'
-    run = Run(f.node, max_iter=1, max_paths=300000)
+    run = run_function(f, ctx.model, max_iter=1, max_paths=300000)
     attr_ints = set()
     for n in walk_own(f.node):
         if isinstance(n, ast.Assign) and \
